@@ -183,6 +183,7 @@ func (s *SFlow) sFlowWorker(wQuit chan struct{}) {
 
 LOOP:
 	for {
+		vhook("Top", "sflow", nil, nil)
 
 		select {
 		case <-wQuit:
@@ -192,6 +193,7 @@ LOOP:
 				break LOOP
 			}
 		}
+		vhook("Deq", "sflow", msg.body, nil)
 
 		if opts.Verbose {
 			logger.Printf("rcvd sflow data from: %s, size: %d bytes",
@@ -216,6 +218,7 @@ LOOP:
 			sFlowBuffer.Put(msg.body[:opts.SFlowUDPSize])
 			continue
 		}
+		vhook("Dec", "sflow", msg.body, nil)
 
 		b, err = json.Marshal(datagram)
 		if err != nil {
@@ -225,6 +228,7 @@ LOOP:
 		}
 
 		atomic.AddUint64(&s.stats.DecodedCount, 1)
+		vhook("Mar", "sflow", msg.body, b)
 
 		if opts.Verbose {
 			logger.Println(string(b))
